@@ -403,6 +403,8 @@ func PFBs() []Input {
 	return []Input{
 		{Name: "text-bin-text-end", Kind: "pfb", Data: cat(pfbSeg(1, text), pfbSeg(2, bin), pfbSeg(1, []byte("cleartomark\n")), []byte{0x80, 3})},
 		{Name: "no-end-marker", Kind: "pfb", Data: cat(pfbSeg(1, text), pfbSeg(2, bin[:5]))},
+		{Name: "no-end-marker-text-last", Kind: "pfb", Data: cat(pfbSeg(2, bin[:9]), pfbSeg(1, []byte("cleartomark and some more text\n")))},
+		{Name: "no-end-marker-one-text-segment", Kind: "pfb", Data: pfbSeg(1, text)},
 		{Name: "empty-segments", Kind: "pfb", Data: cat(pfbSeg(1, nil), pfbSeg(2, nil), pfbSeg(1, []byte("x")), pfbSeg(2, bin[:1]), []byte{0x80, 3})},
 		{Name: "garbage-after-end", Kind: "pfb", Data: cat(pfbSeg(2, bin[:33]), []byte{0x80, 3}, []byte("garbage"))},
 		{Name: "bad-second-header", Kind: "pfb", Data: cat(pfbSeg(1, text), []byte{0x81, 1, 1, 0, 0, 0, 'x'})},
